@@ -12,6 +12,7 @@ package main
 
 import (
 	"fmt"
+	"go/constant"
 	"go/token"
 	"go/types"
 	"strings"
@@ -71,7 +72,7 @@ func c05ModuleFuncs(p *Prog) []*ssa.Function {
 
 func c05R1Verify(c *Ctx) {
 	const R = "C05.R1.verify-sound"
-	c.Expect(R, 9)
+	c.Expect(R, 10)
 	fn := c.P.Fn("content", "VerifyReader.Verify")
 	if fn == nil || len(fn.Blocks) == 0 || len(fn.Params) == 0 {
 		c.LostAnchor(R, "(*~/content.VerifyReader).Verify")
@@ -246,6 +247,30 @@ func c05R1Verify(c *Ctx) {
 		c.Check(R, tn+"|verified-flag-set-only-after-checks", st.Pos(), bad == "",
 			ifelse(bad == "", "vr.verified=true is reached only after length check, end-of-stream probe and digest check", "vr.verified is set although "+bad))
 	}
+	// Verify itself records io.EOF in vr.err only after the same checks (a second Verify() trusts it)
+	okRec, badRec := true, ""
+	for _, u := range c05FieldUses([]*ssa.Function{fn}, c05VRType, "err") {
+		st, isStore := u.Use.(*ssa.Store)
+		if !isStore {
+			continue
+		}
+		ps, ok := c05EnumPaths(fn, st)
+		if !ok {
+			okRec, badRec = false, "path budget exceeded"
+		}
+		for _, p := range ps {
+			if !c05MayBeEOF(p.st.resolve(st.Val), 0) {
+				continue
+			}
+			for _, rq := range reqs {
+				if !rq.sat(p) {
+					okRec, badRec = false, rq.key+" missing on path "+p.String()+" at "+c.P.Pos(st.Pos())
+				}
+			}
+		}
+	}
+	c.Check(R, tn+"|eof-recorded-only-after-checks", fn.Pos(), okRec,
+		ifelse(okRec, "Verify stores io.EOF into vr.err only behind length check, end-of-stream probe and digest check", "Verify records io.EOF in vr.err although "+badRec+": a repeated Verify() then passes the length check"))
 	// Read must not record io.EOF while N>0 when Verify relies on the recorded io.EOF
 	if eofOnly {
 		c05R1Read(c, R)
@@ -357,11 +382,8 @@ func c05R1Read(c *Ctx, R string) {
 		}
 		for _, p := range ps {
 			v := p.st.resolve(st.Val)
-			if g := sentinelOf(v); g != "" && g != "io.EOF" {
-				continue
-			}
-			if g := sentinelOf(v); g == "" && ErrNilStatus(v, 0) == NonNil {
-				continue // freshly constructed error
+			if !c05MayBeEOF(v, 0) {
+				continue // a sentinel other than io.EOF, or a freshly constructed error
 			}
 			if f, known := p.st.facts[c05EqKey(p.st.symOf(st.Val), "g:io.EOF")]; known && !f {
 				continue
@@ -385,6 +407,43 @@ func c05R1Read(c *Ctx, R string) {
 	if stores == 0 {
 		c.OK(R, tn+"|early-eof-not-recorded-as-eof", fn.Pos(), "Read never records an error")
 	}
+}
+
+// c05MayBeEOF: can error value v be identical to io.EOF?  No for other
+// package-level sentinels, for freshly constructed errors, and for calls of
+// in-module functions all of whose results are such values or nil.
+func c05MayBeEOF(v ssa.Value, depth int) bool {
+	if _, isZero := v.(zeroMarker); isZero {
+		return false
+	}
+	v = strip(v)
+	if k, ok := v.(*ssa.Const); ok && k.Value == nil {
+		return false
+	}
+	if g := sentinelOf(v); g != "" {
+		return g == "io.EOF"
+	}
+	if call, ok := v.(*ssa.Call); ok {
+		if nonNilCallees[CalleeName(call)] {
+			return false
+		}
+		if g := StaticCallee(call); g != nil && inModule(g) && depth < 2 && len(g.Blocks) > 0 {
+			idx := ErrResultIndex(g.Signature)
+			if idx < 0 {
+				return true
+			}
+			for _, a := range RetAtoms(g, idx) {
+				if c05MayBeEOF(a.Val, depth+1) {
+					return true
+				}
+			}
+			return false
+		}
+	}
+	if _, ok := v.(*ssa.MakeInterface); ok {
+		return false
+	}
+	return true
 }
 
 // sentinelOf: short name of the package-level variable v is a load of, else "".
@@ -998,6 +1057,13 @@ func c05R2File(c *Ctx) {
 				ifelse(okKey, "the key is expected.Digest of the descriptor CopyBuffer verified", "the digest recorded is not the Digest of the descriptor the copy was verified against"))
 			c.Check(R, fname+"|recorded-path-is-the-written-file", call.Pos(), okVal,
 				ifelse(okVal, "the recorded path is Name() of the file CopyBuffer wrote", "the path recorded for the digest is not the file that was written and verified"))
+			okFresh, whyFresh := true, "the verified bytes are written into a file that is created empty (os.Create / os.CreateTemp / O_TRUNC without O_APPEND) on every call chain"
+			for _, cb := range cbs {
+				if ok, why := c05FreshFile(c, strip(cb.Common().Args[0]), 0); !ok {
+					okFresh, whyFresh = false, "the file the verified bytes are copied into may already hold data ("+why+"): the recorded file is then not the bytes the descriptor names"
+				}
+			}
+			c.Check(R, fname+"|written-file-starts-empty", call.Pos(), okFresh, whyFresh)
 			if why := c05DeferKeepsError(f); why != "" {
 				c.Violation(R, fname+"|deferred-close-keeps-error", f.Pos(), why)
 			} else {
@@ -1010,6 +1076,90 @@ func c05R2File(c *Ctx) {
 	}
 	// push-role: marks the name as existing
 	c05ExistsAfterSuccess(c, R, "(*~/content/file.Store).push")
+}
+
+// c05FreshFile: every value v may denote is a file that was just created
+// empty: os.Create, os.CreateTemp, os.OpenFile with O_TRUNC and without
+// O_APPEND, an in-module helper returning such a file, or a parameter that
+// receives such a file at every static call site.
+func c05FreshFile(c *Ctx, v ssa.Value, depth int) (bool, string) {
+	if depth > 3 {
+		return false, "file origin too deep to follow"
+	}
+	osConst := func(name string) int64 {
+		if k, ok := c.P.Obj("os", name).(*types.Const); ok {
+			if n, exact := constantInt64(k); exact {
+				return n
+			}
+		}
+		return -1
+	}
+	rs := Roots(v)
+	if len(rs) == 0 {
+		return false, "unknown file"
+	}
+	for _, r := range rs {
+		r = strip(r)
+		switch u := r.(type) {
+		case *ssa.Extract:
+			call, ok := u.Tuple.(*ssa.Call)
+			if !ok || u.Index != 0 {
+				return false, "file of unknown origin"
+			}
+			switch n := CalleeName(call); {
+			case n == "os.Create" || n == "os.CreateTemp":
+			case n == "os.OpenFile":
+				fl, isK := constInt(call.Call.Args[1])
+				tr, ap := osConst("O_TRUNC"), osConst("O_APPEND")
+				if !isK || tr < 0 || ap < 0 || fl&tr == 0 || fl&ap != 0 {
+					return false, "os.OpenFile without O_TRUNC or with O_APPEND at " + c.P.Pos(call.Pos())
+				}
+			default:
+				g := StaticCallee(call)
+				if g == nil || !inModule(g) || len(g.Blocks) == 0 {
+					return false, "file obtained from " + n
+				}
+				for _, a := range RetAtoms(g, 0) {
+					if k, isK := a.Val.(*ssa.Const); isK && k.Value == nil {
+						continue
+					}
+					if ok, why := c05FreshFile(c, a.Val, depth+1); !ok {
+						return false, why
+					}
+				}
+			}
+		case *ssa.Parameter:
+			f := u.Parent()
+			pi := -1
+			for i, p := range f.Params {
+				if p == u {
+					pi = i
+				}
+			}
+			ncall := 0
+			for _, g := range c.P.FuncsOfPkg(strings.TrimPrefix(fnPkgPath(f), Mod+"/")) {
+				for _, call := range Calls(g, func(string) bool { return true }) {
+					if StaticCallee(call) != f || pi < 0 || pi >= len(call.Common().Args) {
+						continue
+					}
+					ncall++
+					if ok, why := c05FreshFile(c, call.Common().Args[pi], depth+1); !ok {
+						return false, why
+					}
+				}
+			}
+			if ncall == 0 {
+				return false, "no static caller supplies the file"
+			}
+		default:
+			return false, "file of unknown origin (" + describe(r) + ")"
+		}
+	}
+	return true, ""
+}
+
+func constantInt64(k *types.Const) (int64, bool) {
+	return constant.Int64Val(constant.ToInt(k.Val()))
 }
 
 // c05ExistsAfterSuccess: in function `which` of content/file every store of
@@ -1568,7 +1718,12 @@ func c05R4(c *Ctx) {
 				mon = true // in-package helper on the verifying/publishing path (role, not name)
 			}
 			if n == "(*os.File).Close" && len(cbNil) > 0 && ReachableFromEntry(call.(ssa.Instruction)) && MustPass(call.(ssa.Instruction), newCut().Edges(cbNil...)) {
-				mon = true // closing the freshly written file on the success path
+				// closing the freshly written file matters where success can still be reported afterwards
+				for _, a := range c05MaybeNilAtoms(f) {
+					if reach(call.Block(), instrIndex(call.(ssa.Instruction))+1, a.Ret, nil) {
+						mon = true
+					}
+				}
 			}
 			if !mon || ErrOf(call) == nil {
 				continue
@@ -1577,8 +1732,18 @@ func c05R4(c *Ctx) {
 			key := fmt.Sprintf("%s|%s#%d", FnName(f), n, seen[n])
 			var tol []string
 			if fnPkgPath(f) == pkgPath("content/file") {
-				// by design: unnamed content is discarded on request; restoring duplicates skips absent blobs and names pushed concurrently
-				tol = []string{"~/content/file.errSkipUnnamed", "~/errdef.ErrNotFound", "~/content/file.ErrDuplicateName"}
+				root := f
+				for root.Parent() != nil {
+					root = root.Parent()
+				}
+				switch {
+				case len(CallsTo(root, "~/content.Successors")) > 0:
+					// restore-duplicates role: by design skips absent blobs and names pushed concurrently
+					tol = []string{"~/errdef.ErrNotFound", "~/content/file.ErrDuplicateName"}
+				case root.Object() != nil && root.Object().Exported():
+					// Store.Push: unnamed content is discarded on request (IgnoreNoName)
+					tol = []string{"~/content/file.errSkipUnnamed"}
+				}
 			}
 			r := ErrFlow(call, ErrFlowOpts{Tolerated: tol})
 			pos := call.Pos()
@@ -1587,55 +1752,86 @@ func c05R4(c *Ctx) {
 			}
 			c.Check(R, key, pos, r.OK, r.How+r.Detail)
 		}
-		// a deferred closure that closes the file written by CopyBuffer must record the Close error
+		// deferred code (closure or in-module helper) that closes the file written by CopyBuffer must record the Close error
 		if len(cbNil) == 0 {
 			continue
 		}
+		cells := c05ErrCells(f)
 		for _, cl := range Anons(f) {
 			if cl.Parent() != f {
 				continue
 			}
+			var handle ssa.Value
+			for _, x := range cl.FreeVars {
+				for _, b := range freeVarBindings(x) {
+					if cells[b] {
+						handle = x
+					}
+				}
+			}
 			for _, call := range CallsTo(cl, "(*os.File).Close") {
-				ok, why := c05ClosureErrRecorded(f, cl, call)
+				ok, why := c05ClosureErrRecorded(cl, call, handle)
 				c.Check(R, FnName(f)+"|deferred-close-error-recorded", call.Pos(), ok, why)
 			}
 		}
+		AllInstrs(f, func(in ssa.Instruction) {
+			d, isDefer := in.(*ssa.Defer)
+			if !isDefer {
+				return
+			}
+			g := StaticCallee(d)
+			if g == nil || !inModule(g) || g.Parent() != nil || len(g.Blocks) == 0 {
+				return
+			}
+			var handle ssa.Value
+			for i, a := range d.Call.Args {
+				if cells[a] && i < len(g.Params) {
+					handle = g.Params[i]
+				}
+			}
+			for _, call := range CallsTo(g, "(*os.File).Close") {
+				ok, why := c05ClosureErrRecorded(g, call, handle)
+				c.Check(R, FnName(f)+"|deferred-close-error-recorded", call.Pos(), ok, why)
+			}
+		})
 	}
 }
 
-// c05ClosureErrRecorded: inside deferred closure cl of fn, the error of call
-// reaches fn's named error result: every path from the call to the closure's
-// end stores it there, or finds it nil, or finds the result already non-nil.
-func c05ClosureErrRecorded(fn, cl *ssa.Function, call ssa.CallInstruction) (bool, string) {
+// c05ErrCells: the local cells holding fn's error result.
+func c05ErrCells(fn *ssa.Function) map[ssa.Value]bool {
 	idx := ErrResultIndex(fn.Signature)
-	e := ErrOf(call)
-	if idx < 0 || e == nil {
-		return false, "Close error discarded"
-	}
 	cells := map[ssa.Value]bool{}
+	if idx < 0 {
+		return cells
+	}
 	for _, r := range Returns(fn) {
 		if a := cellOf(r.Results[idx]); a != nil {
 			cells[a] = true
 		}
 	}
-	var fv *ssa.FreeVar
-	for _, x := range cl.FreeVars {
-		for _, b := range freeVarBindings(x) {
-			if cells[b] {
-				fv = x
-			}
-		}
+	return cells
+}
+
+// c05ClosureErrRecorded: inside deferred function cl (a closure of fn, or an
+// in-module helper deferred by fn), the error of call reaches fn's named error
+// result through `handle` (the captured free variable / the *error parameter
+// bound to the result cell): every path from the call to the function's end
+// stores it there, or finds it nil, or finds the result already non-nil.
+func c05ClosureErrRecorded(cl *ssa.Function, call ssa.CallInstruction, handle ssa.Value) (bool, string) {
+	e := ErrOf(call)
+	if e == nil {
+		return false, "Close error discarded"
 	}
-	if fv == nil {
-		return false, "the closure that closes the written file does not capture the enclosing function's error result: a failed Close goes unreported"
+	if handle == nil {
+		return false, "the deferred code that closes the written file has no access to the enclosing function's error result: a failed Close goes unreported"
 	}
 	al := Aliases(e)
 	cutC := newCut()
 	loads := map[ssa.Value]bool{}
-	for _, r := range *fv.Referrers() {
+	for _, r := range *handle.Referrers() {
 		switch u := r.(type) {
 		case *ssa.Store:
-			if u.Addr == ssa.Value(fv) && derivesFromAny(u.Val, al, 0) {
+			if u.Addr == handle && derivesFromAny(u.Val, al, 0) {
 				cutC.Instr(u)
 			}
 		case *ssa.UnOp:
@@ -1664,6 +1860,7 @@ var c05Mutants = []Mutant{
 	{Name: "verify-skips-digest", File: "content/reader.go", Old: "\tif !vr.verifier.Verified() {\n\t\tvr.err = ErrMismatchedDigest\n\t\treturn vr.err\n\t}\n", New: "", Expect: "C05.R1.verify-sound|(*~/content.VerifyReader).Verify|nil-implies-digest-verified"},
 	{Name: "verified-flag-before-digest", File: "content/reader.go", Old: "\tif !vr.verifier.Verified() {\n\t\tvr.err = ErrMismatchedDigest\n\t\treturn vr.err\n\t}\n\n\tvr.verified = true\n", New: "\tvr.verified = true\n\tif !vr.verifier.Verified() {\n\t\tvr.err = ErrMismatchedDigest\n\t\treturn vr.err\n\t}\n\n", Expect: "C05.R1.verify-sound|(*~/content.VerifyReader).Verify|verified-flag-set-only-after-checks"},
 	{Name: "verify-returns-nil-on-recorded-error", File: "content/reader.go", Old: "\t} else if vr.err != io.EOF {\n\t\treturn vr.err\n\t}", New: "\t} else if vr.err != io.EOF && vr.err != io.ErrUnexpectedEOF {\n\t\treturn vr.err\n\t}", Expect: "C05.R1.verify-sound|(*~/content.VerifyReader).Verify|nil-implies-length-check"},
+	{Name: "verify-records-eof-on-early-verify", File: "content/reader.go", Old: "\t\tif vr.base.N > 0 {\n\t\t\treturn errEarlyVerify", New: "\t\tif vr.base.N > 0 {\n\t\t\tvr.err = io.EOF\n\t\t\treturn errEarlyVerify", Expect: "C05.R1.verify-sound|(*~/content.VerifyReader).Verify|eof-recorded-only-after-checks"},
 	// R1 wiring
 	{Name: "tee-into-a-different-verifier", File: "content/reader.go", Old: "\t\tR: io.TeeReader(r, verifier),", New: "\t\tR: io.TeeReader(r, desc.Digest.Verifier()),", Expect: "C05.R1.verify-reader-wiring"},
 	{Name: "limit-not-descriptor-size", File: "content/reader.go", Old: "\t\tN: desc.Size,\n", New: "\t\tN: desc.Size + 1,\n", Expect: "C05.R1.verify-reader-wiring|~/content.NewVerifyReader|limit-is-descriptor-size"},
@@ -1681,7 +1878,11 @@ var c05Mutants = []Mutant{
 	{Name: "oci-ingest-inside-blobs", File: "content/oci/storage.go", Old: "\t\tingestRoot:      filepath.Join(rootAbs, \"ingest\"),", New: "\t\tingestRoot:      filepath.Join(rootAbs, \"blobs\", \"ingest\"),", Expect: "C05.R2.publish-after-verify|(*~/content/oci.Storage).ingest|temp-file-outside-blobs"},
 	{Name: "oci-ingest-clears-error-on-close", File: "content/oci/storage.go", Old: "\t\tif err := fp.Close(); err != nil && ingestErr == nil {\n\t\t\tingestErr = fmt.Errorf(\"failed to close ingest file: %w\", err)\n\t\t}", New: "\t\tif err := fp.Close(); err == nil {\n\t\t\tingestErr = err\n\t\t}", Expect: "C05.R2.publish-after-verify|(*~/content/oci.Storage).ingest|nil-error-implies-verified-copy"},
 	{Name: "file-digest-recorded-before-copy", File: "content/file/file.go", Old: "\tif err := ioutil.CopyBuffer(fp, content, *buf, expected); err != nil {\n\t\treturn fmt.Errorf(\"failed to copy content to %s: %w\", path, err)\n\t}\n\n\ts.digestToPath.Store(expected.Digest, path)\n", New: "\ts.digestToPath.Store(expected.Digest, path)\n\tif err := ioutil.CopyBuffer(fp, content, *buf, expected); err != nil {\n\t\treturn fmt.Errorf(\"failed to copy content to %s: %w\", path, err)\n\t}\n\n", Expect: "C05.R2.publish-after-verify|(*~/content/file.Store).saveFile|digest-recorded-only-after-verified-copy"},
+	{Name: "file-pushfile-does-not-truncate", File: "content/file/file.go", Old: "\tfp, err := os.Create(target)\n", New: "\tfp, err := os.OpenFile(target, os.O_WRONLY|os.O_CREATE, 0666)\n", Expect: "C05.R2.publish-after-verify|(*~/content/file.Store).saveFile|written-file-starts-empty"},
 	{Name: "file-name-exists-before-write", File: "content/file/file.go", Old: "\tif needUnpack := expected.Annotations[AnnotationUnpack]; needUnpack == \"true\" && !s.SkipUnpack {", New: "\tstatus.exists = true\n\tif needUnpack := expected.Annotations[AnnotationUnpack]; needUnpack == \"true\" && !s.SkipUnpack {", Expect: "C05.R2.publish-after-verify|(*~/content/file.Store).push|exists-set-only-after-success"},
+	{Name: "file-savefile-deferred-helper-clears-error", File: "content/file/file.go", Old: "\tdefer func() {\n\t\tcloseErr := fp.Close()\n\t\tif err == nil {\n\t\t\terr = closeErr\n\t\t}\n\t}()\n\tpath := fp.Name()\n\n\tbuf := bufPool.Get().(*[]byte)\n\tdefer bufPool.Put(buf)\n\tif err := ioutil.CopyBuffer(fp, content, *buf, expected); err != nil {\n\t\treturn fmt.Errorf(\"failed to copy content to %s: %w\", path, err)\n\t}\n\n\ts.digestToPath.Store(expected.Digest, path)\n\treturn nil\n}\n", New: "\tdefer closeFile(fp, &err)\n\tpath := fp.Name()\n\n\tbuf := bufPool.Get().(*[]byte)\n\tdefer bufPool.Put(buf)\n\tif err := ioutil.CopyBuffer(fp, content, *buf, expected); err != nil {\n\t\treturn fmt.Errorf(\"failed to copy content to %s: %w\", path, err)\n\t}\n\n\ts.digestToPath.Store(expected.Digest, path)\n\treturn nil\n}\n\nfunc closeFile(fp *os.File, err *error) { *err = fp.Close() }\n", Expect: "C05.R2.publish-after-verify|(*~/content/file.Store).saveFile|deferred-close-keeps-error"},
+	{Name: "file-savefile-deferred-helper-drops-close-error", File: "content/file/file.go", Old: "\tdefer func() {\n\t\tcloseErr := fp.Close()\n\t\tif err == nil {\n\t\t\terr = closeErr\n\t\t}\n\t}()\n\tpath := fp.Name()\n\n\tbuf := bufPool.Get().(*[]byte)\n\tdefer bufPool.Put(buf)\n\tif err := ioutil.CopyBuffer(fp, content, *buf, expected); err != nil {\n\t\treturn fmt.Errorf(\"failed to copy content to %s: %w\", path, err)\n\t}\n\n\ts.digestToPath.Store(expected.Digest, path)\n\treturn nil\n}\n", New: "\tdefer closeFile(fp)\n\tpath := fp.Name()\n\n\tbuf := bufPool.Get().(*[]byte)\n\tdefer bufPool.Put(buf)\n\tif err := ioutil.CopyBuffer(fp, content, *buf, expected); err != nil {\n\t\treturn fmt.Errorf(\"failed to copy content to %s: %w\", path, err)\n\t}\n\n\ts.digestToPath.Store(expected.Digest, path)\n\treturn nil\n}\n\nfunc closeFile(fp *os.File) { fp.Close() }\n", Expect: "C05.R4.error-flow|(*~/content/file.Store).saveFile|deferred-close-error-recorded"},
+	// R2 wrappers
 	{Name: "oci-store-tags-before-push", File: "content/oci/oci.go", Old: "\tif err := s.storage.Push(ctx, expected, reader); err != nil {\n\t\treturn err\n\t}\n\tif err := s.graph.Index(ctx, s.storage, expected); err != nil {\n\t\treturn err\n\t}\n\tif descriptor.IsManifest(expected) {\n\t\t// tag by digest\n\t\treturn s.tag(ctx, expected, expected.Digest.String())\n\t}\n\treturn nil", New: "\tif descriptor.IsManifest(expected) {\n\t\t// tag by digest\n\t\tif err := s.tag(ctx, expected, expected.Digest.String()); err != nil {\n\t\t\treturn err\n\t\t}\n\t}\n\tif err := s.storage.Push(ctx, expected, reader); err != nil {\n\t\treturn err\n\t}\n\treturn s.graph.Index(ctx, s.storage, expected)", Expect: "C05.R2.wrapper-forwards-descriptor|(*~/content/oci.Store).Push|bookkeeping-only-after-successful-inner-push"},
 	// R3
 	{Name: "memory-second-writer", File: "internal/cas/memory.go", Old: "// Map dumps the memory into a built-in map structure.", New: "// Preload stores bytes under key.\nfunc (m *Memory) Preload(key descriptor.Descriptor, b []byte) { m.content.Store(key, b) }\n\n// Map dumps the memory into a built-in map structure.", Expect: "C05.R3.who-may-publish|~/internal/cas.Memory.content|"},
@@ -1689,6 +1890,7 @@ var c05Mutants = []Mutant{
 	{Name: "file-add-records-digest-before-error-check", File: "content/file/file.go", Old: "\tdgst, err := digest.FromReader(fp)\n\tif err != nil {\n\t\treturn ocispec.Descriptor{}, err\n\t}\n\t// map digest to file path\n\ts.digestToPath.Store(dgst, path)\n", New: "\tdgst, err := digest.FromReader(fp)\n\t// map digest to file path\n\ts.digestToPath.Store(dgst, path)\n\tif err != nil {\n\t\treturn ocispec.Descriptor{}, err\n\t}\n", Expect: "C05.R3.who-may-publish|(*~/content/file.Store).descriptorFromFile|recorded-digest-is-computed-over-recorded-file"},
 	{Name: "file-adddir-no-explicit-flush", File: "content/file/file.go", Old: "\t// flush all\n\tif err := gzw.Close(); err != nil {\n\t\treturn ocispec.Descriptor{}, err\n\t}\n", New: "\t// flush all\n", Expect: "C05.R3.who-may-publish|(*~/content/file.Store).descriptorFromDir|recorded-digest-is-computed-over-recorded-file"},
 	// R4
+	{Name: "file-push-duplicate-name-reported-as-success", File: "content/file/file.go", Old: "\t\tif errors.Is(err, errSkipUnnamed) {\n\t\t\treturn nil\n\t\t}", New: "\t\tif errors.Is(err, errSkipUnnamed) || errors.Is(err, ErrDuplicateName) {\n\t\t\treturn nil\n\t\t}", Expect: "C05.R4.error-flow|(*~/content/file.Store).Push|"},
 	{Name: "oci-chmod-error-ignored", File: "content/oci/storage.go", Old: "\tif err := os.Chmod(path, 0444); err != nil {\n\t\treturn \"\", fmt.Errorf(\"failed to make readonly: %w\", err)\n\t}", New: "\t_ = os.Chmod(path, 0444)", Expect: "C05.R4.error-flow|(*~/content/oci.Storage).ingest|os.Chmod"},
 	{Name: "oci-close-error-dropped", File: "content/oci/storage.go", Old: "\t\tif err := fp.Close(); err != nil && ingestErr == nil {\n\t\t\tingestErr = fmt.Errorf(\"failed to close ingest file: %w\", err)\n\t\t}", New: "\t\tfp.Close()", Expect: "C05.R4.error-flow|(*~/content/oci.Storage).ingest|deferred-close-error-recorded"},
 	{Name: "file-create-error-swallowed", File: "content/file/file.go", Old: "\tfp, err := os.Create(target)\n\tif err != nil {\n\t\treturn fmt.Errorf(\"failed to create file %s: %w\", target, err)\n\t}", New: "\tfp, err := os.Create(target)\n\tif err != nil {\n\t\treturn nil\n\t}", Expect: "C05.R4.error-flow|(*~/content/file.Store).pushFile|os.Create"},
